@@ -50,6 +50,7 @@ type convScn struct {
 	Split    bool     `json:"split,omitempty"`     // every frame is cut in the middle: a read is the tail of one frame + the head of the next
 	Stab     bool     `json:"stability,omitempty"` // C09 oracle: kept messages compared at every callback
 	Plain    bool     `json:"plain,omitempty"`     // the server's own default handlers and eventer (no recording handlers)
+	NoFilter bool     `json:"no_filter,omitempty"` // WithHasSubcontract(false): lone sub-packages reach the handlers (stability oracle only)
 }
 
 type convRun struct {
@@ -62,7 +63,12 @@ func convMake(scn convScn) func() (func(), any) {
 		vnet.Reset()
 		r := &convRun{scn: scn}
 		body := func() {
-			r.w = startWorld(worldOpts{stab: scn.Stab, noRecord: scn.Plain})
+			wo := worldOpts{stab: scn.Stab, noRecord: scn.Plain}
+			if scn.NoFilter {
+				off := false
+				wo.filter = &off
+			}
+			r.w = startWorld(wo)
 			for ci, msgs := range scn.Conns {
 				ci, msgs := ci, msgs
 				run := func() {
@@ -112,7 +118,10 @@ func convMake(scn convScn) func() (func(), any) {
 							p.Drained()
 						}
 					}
-					if scn.Close {
+					if scn.Close && scn.NoFilter {
+						vs.WaitIdle() // everything the server does with these frames has happened
+						p.Close()
+					} else if scn.Close {
 						p.Expect(len(repliesOf(msgs)))
 						p.Close()
 					}
